@@ -277,7 +277,7 @@ func (w *world) faultTrial(n int) {
 			}
 		}
 		orig := st.objects[key].body
-		ops := []string{"flip", "truncate", "extend", "extend-huge", "drop", "swap", "copy-over-peer", "copy-to-new-key", "rename", "rewrite"}
+		ops := []string{"flip", "truncate", "extend", "extend-huge", "drop", "swap", "copy-over-peer", "copy-to-new-key", "rename", "rewrite", "flip-bit"}
 		op = ops[tp.Intn(len(ops))]
 		peer := func() string {
 			ps := ks
@@ -296,6 +296,17 @@ func (w *world) faultTrial(n int) {
 			b[i] ^= byte(1 + tp.Intn(255))
 			st.objects[key] = object{body: b}
 			mutated, detail = b, fmt.Sprintf("byte %d", i)
+		case "flip-bit":
+			// a single bit. In a chunk: one bit of the zstd frame-header descriptor, whose bit 4 no decoder
+			// interprets - the decoded payload stays the same, only the stored-bytes digest can notice.
+			b := append([]byte(nil), orig...)
+			i, bit := tp.Intn(len(b)), tp.Intn(8)
+			if class == "chunk" && len(b) > 4 {
+				i, bit = 4, []int{4, 0, 1, 2, 3, 5, 6, 7}[tp.Weighted([]int{4, 1, 1, 1, 1, 1, 1, 1})]
+			}
+			b[i] ^= 1 << uint(bit)
+			st.objects[key] = object{body: b}
+			mutated, detail = b, fmt.Sprintf("byte %d bit %d", i, bit)
 		case "truncate":
 			b := append([]byte(nil), orig[:tp.Intn(len(orig))]...)
 			st.objects[key] = object{body: b}
